@@ -41,7 +41,7 @@ CHECKS = [
     (r'renderer/dbml/', ['C02', 'C10', 'C13', 'C14', 'C15', 'C17', 'C16', 'C08']),
     (r'renderer/base', ['C16', 'C17', 'C02', 'C03']),
     (r'database\.py', ['C09', 'C16', 'C10', 'C05', 'C06']),
-    (r'_classes/', ['C09', 'C10', 'C17', 'C05', 'C02', 'C04', 'C03', 'C16', 'C06']),
+    (r'_classes/', ['C09', 'C10', 'C17', 'C05', 'C02', 'C04', 'C03', 'C16', 'C06', 'C15', 'C13']),
     (r'tools\.py', ['C13', 'C02', 'C14', 'C12', 'C07', 'C01']),
     (r'parser/parser\.py', ['C01', 'C12', 'C11', 'C05', 'C06', 'C15', 'C07', 'C16']),
     (r'parser/blueprints\.py', ['C01', 'C05', 'C06', 'C13', 'C14', 'C15']),
